@@ -43,7 +43,7 @@ def lex(text):
     if _RE_INT.fullmatch(t):
         v = int(t)
         tc = "int+" if v > 0 else ("int0" if v == 0 else "int-")
-        return tc, (t if len(t) <= 1 else "")
+        return tc, t[:20]               # kept: trafficSignID values such as "274" are integers lexically
     if _RE_DEC.fullmatch(t):
         v = Fraction(t)
         return ("dec+" if v > 0 else ("dec0" if v == 0 else "dec-")), ""
